@@ -608,6 +608,9 @@ class HammingReward(Rewards):
         argmax = self._argmax
         comparable,shape = extract_shape(action,argmax[0],True)
 
+        #a single label (e.g., one of the actions of a multilabel SupervisedSimulation) is a set of one
+        if not isinstance(comparable,(list,tuple,set,frozenset)): comparable = [comparable]
+
         n_intersect = 0
 
         for a in comparable: n_intersect += a in self._argmax
